@@ -271,7 +271,27 @@ func checkSanitisers(c *Ctx, gen *packages.Package) {
 			if s, ok := goan.StringVal(info, call.Args[1]); !ok || !strings.HasPrefix("+build", s) || s == "" {
 				return true
 			}
-			// the guarded branch stores a replacement for the line whose constant head is not "+…"
+			// the test looks at the line without its indentation (`//   +build x` is a constraint too)
+			tested := call.Args[0]
+			if id, ok := ast.Unparen(tested).(*ast.Ident); ok && ifs.Init != nil {
+				if as, ok := ifs.Init.(*ast.AssignStmt); ok && len(as.Lhs) == 1 && len(as.Rhs) == 1 && identIs(info, as.Lhs[0], info.ObjectOf(id)) {
+					tested = as.Rhs[0]
+				}
+			}
+			tested = goan.ResolveLocal(info, fd.Body, tested)
+			trimmed := false
+			if tc, ok := ast.Unparen(tested).(*ast.CallExpr); ok {
+				if tf := goan.Callee(info, tc); tf != nil {
+					switch goan.CalleeName(tf) {
+					case "strings.TrimLeft", "strings.TrimSpace", "strings.TrimLeftFunc":
+						trimmed = true
+					}
+				}
+			}
+			if !trimmed {
+				return true
+			}
+			// the guarded branch stores a replacement in which a constant piece other than "+…" is inserted
 			for _, st := range ifs.Body.List {
 				as, ok := st.(*ast.AssignStmt)
 				if !ok || len(as.Lhs) != 1 || len(as.Rhs) != 1 {
@@ -280,15 +300,24 @@ func checkSanitisers(c *Ctx, gen *packages.Package) {
 				if _, isIx := ast.Unparen(as.Lhs[0]).(*ast.IndexExpr); !isIx {
 					continue
 				}
-				head := as.Rhs[0]
-				for {
-					be, ok := ast.Unparen(head).(*ast.BinaryExpr)
-					if !ok || be.Op != token.ADD {
-						break
+				inserted, keepsPlus := false, false
+				var walk func(e ast.Expr)
+				walk = func(e ast.Expr) {
+					if be, ok := ast.Unparen(e).(*ast.BinaryExpr); ok && be.Op == token.ADD {
+						walk(be.X)
+						walk(be.Y)
+						return
 					}
-					head = be.X
+					if cs, ok := goan.StringVal(info, e); ok {
+						if strings.HasPrefix(strings.TrimLeft(cs, " \t"), "+build") {
+							keepsPlus = true
+						} else if cs != "" {
+							inserted = true
+						}
+					}
 				}
-				if hs, ok := goan.StringVal(info, head); ok && hs != "" && !strings.HasPrefix(hs, "+") && !strings.HasPrefix(strings.TrimLeft(hs, " \t"), "+build") {
+				walk(as.Rhs[0])
+				if inserted && !keepsPlus {
 					neutralised = true
 				}
 			}
